@@ -5,7 +5,7 @@ import PonyVerif.Model.Cascade
   schema  : [{"a":{"ent":0,"coll":false,"req":false,"casc":false,"col":true},"b":{..},"sym":false},..]
   objs    : [{"ent":0,"alive":true,"refs":[[rel,side,null|id],..],"colls":[[rel,side,[ids]],..]},..]
   requests:
-    {"op":"run","schema":..,"objs":..,"guard":bool,"deletes":[id,..]}
+    {"op":"run","schema":..,"classes":[[[rel,side],..],..] (optional: `_attrs_` per class id, inherited first),"objs":..,"guard":bool,"deletes":[id,..]}
        -> {"steps":[{"err":null|"ConstraintError",..,"agree":bool,"nodangling":bool,"objs":[..]}],"db":{..},"fk":bool}
     {"op":"bulk","schema":..,"objs":..,"stmts":[[id,..],..]}     (bulk DELETE statements, one after the other, on the committed image of `objs`)
        -> {"steps":[{"refused":bool,"db":{..},"fk":bool},..]}
@@ -79,17 +79,17 @@ def errName : Err → String
 
 def jAttr (a : Attr) : List Json := [toJson a.rel, toJson a.side]
 
-def dump (sch : Schema) (s : Store) : Json :=
+def dump (sch : Schema) (ct : ClassTable) (s : Store) : Json :=
   .arr ((List.range s.n).map fun o => Json.mkObj [
     ("ent", toJson (s.ent o)), ("alive", toJson (s.alive o)),
-    ("refs", .arr ((refsOf sch s o).map fun (a, v) => Json.arr (jAttr a ++ [jOptNat v]).toArray).toArray),
-    ("colls", .arr ((collsOf sch s o).map fun (a, l) => Json.arr (jAttr a ++ [toJson l]).toArray).toArray)]).toArray
+    ("refs", .arr ((refsOf sch ct s o).map fun (a, v) => Json.arr (jAttr a ++ [jOptNat v]).toArray).toArray),
+    ("colls", .arr ((collsOf sch ct s o).map fun (a, l) => Json.arr (jAttr a ++ [toJson l]).toArray).toArray)]).toArray
 
-def dumpDb (sch : Schema) (db : Db) : Json :=
+def dumpDb (sch : Schema) (ct : ClassTable) (db : Db) : Json :=
   Json.mkObj [
     ("rows", toJson ((List.range db.n).filter fun o => db.row o)),
     ("cols", .arr (((List.range db.n).filter fun o => db.row o).flatMap fun o =>
-        (sch.allAttrs.filter fun a => holdsCol sch a && (match sch.side a with | some d => d.ent == db.ent o | none => false)).map fun a =>
+        ((ct (db.ent o)).filter fun a => holdsCol sch a).map fun a =>
           Json.arr ([toJson o] ++ jAttr a ++ [jOptNat (db.col o a)]).toArray).toArray),
     ("links", .arr ((sch.allAttrs.filter fun c => isLinkAttr sch c).flatMap fun c =>
         (List.range db.n).flatMap fun p => ((List.range db.n).filter fun q => db.link c p q).map fun q =>
@@ -102,6 +102,22 @@ def declOfJson (j : Json) : Except String Decl := do
     | .error _ => pure none
   pure { isColl := ← j.getObjValAs? Bool "coll", required := ← j.getObjValAs? Bool "req", optCascade := c }
 
+/-- "classes": [[[rel,side],..] per class id]; absent = no inheritance (the table computed from the schema) -/
+def classTableOfJson (sch : Schema) (j : Json) : Except String ClassTable := do
+  match j.getObjVal? "classes" with
+  | .error _ => pure sch.classTable
+  | .ok (.arr cs) =>
+    let lists ← cs.toList.mapM fun c => do
+      match c with
+      | .arr as => as.toList.mapM fun a => do
+          match a with
+          | .arr #[rel, sd] => pure (({ rel := ← fromJson? rel, side := ← fromJson? sd } : Attr))
+          | _ => throw "classes: [rel, side] expected"
+      | _ => throw "classes: list of attribute lists expected"
+    let arr := lists.toArray
+    pure fun e => match arr[e]? with | some l => l | none => []
+  | .ok _ => throw "classes: array expected"
+
 def onDeleteName : OnDelete → Json
   | .cascade => "CASCADE"
   | .setNull => "SET NULL"
@@ -112,24 +128,26 @@ def handle (j : Json) : Except String Json := do
   match op with
   | "run" =>
       let sch : Schema ← (← argArr j "schema").mapM relOfJson
+      let ct ← classTableOfJson sch j
       let objs ← (← argArr j "objs").mapM objOfJson
       let dels ← natsOfJson (← j.getObjVal? "deletes")
       let guard ← argBool j "guard"
       let (s, outs) := dels.foldl (fun (acc : Store × List Json) o =>
-        let (s', e) := deleteTop sch guard acc.1 o
+        let (s', e) := deleteTop sch ct guard acc.1 o
         (s', Json.mkObj [("err", match e with | none => Json.null | some e => Json.str (errName e)),
                           ("agree", toJson (checkAgree sch s')), ("nodangling", toJson (checkNoDangling sch s')),
-                          ("objs", dump sch s')] :: acc.2)) (storeOf objs, [])
+                          ("objs", dump sch ct s')] :: acc.2)) (storeOf objs, [])
       let db := commit sch s
-      pure (Json.mkObj [("steps", .arr outs.reverse.toArray), ("db", dumpDb sch db), ("fk", toJson (checkFk sch db))])
+      pure (Json.mkObj [("steps", .arr outs.reverse.toArray), ("db", dumpDb sch ct db), ("fk", toJson (checkFk sch db))])
   | "bulk" =>
       let sch : Schema ← (← argArr j "schema").mapM relOfJson
+      let ct ← classTableOfJson sch j
       let objs ← (← argArr j "objs").mapM objOfJson
       let stmts ← (← argArr j "stmts").mapM natsOfJson
       let (_, outs) := stmts.foldl (fun (acc : Db × List Json) rows =>
         match dbDelete sch acc.1 rows with
-        | none => (acc.1, Json.mkObj [("refused", toJson true), ("db", dumpDb sch acc.1), ("fk", toJson (checkFk sch acc.1))] :: acc.2)
-        | some db' => (db', Json.mkObj [("refused", toJson false), ("db", dumpDb sch db'), ("fk", toJson (checkFk sch db'))] :: acc.2))
+        | none => (acc.1, Json.mkObj [("refused", toJson true), ("db", dumpDb sch ct acc.1), ("fk", toJson (checkFk sch acc.1))] :: acc.2)
+        | some db' => (db', Json.mkObj [("refused", toJson false), ("db", dumpDb sch ct db'), ("fk", toJson (checkFk sch db'))] :: acc.2))
         (commit sch (storeOf objs), [])
       pure (Json.mkObj [("steps", .arr outs.reverse.toArray)])
   | "linked" =>
